@@ -258,6 +258,56 @@ OP(alias_prop_self)
     }
     return 0;
 }
+OP(alias_apply_fvec)
+{
+    /* the frequency vector of the object that also receives the result */
+    NEED(F->vdo);
+    if (vnadata_init(F->vdo, VPT_S, 2, 2, 3) != 0)
+	return -1;
+    for (int k = 0; k < 3; ++k)
+	if (vnadata_set_frequency(F->vdo, k, F->f3[k]) != 0)
+	    return -1;
+    return vnacal_apply_m(F->vcp, F->ciA,
+	    vnadata_get_frequency_vector(F->vdo), 3, F->mp, 2, 2, F->vdo);
+}
+OP(alias_new_fvec)
+{
+    /* a new calibration on the frequency grid of a stored one; the stored
+       one is deleted before the new one is used */
+    const double *fv = vnacal_get_frequency_vector(F->vcp, F->ciB);
+    int n = vnacal_get_frequencies(F->vcp, F->ciB);
+    if (fv == NULL || n <= 0)
+	return -1;
+    vnacal_new_t *p = vnacal_new_alloc(F->vcp, VNACAL_T8, 1, 1, n);
+    if (p == NULL)
+	return -1;
+    int rc = vnacal_new_set_frequency_vector(p, fv);
+    (void)vnacal_delete_calibration(F->vcp, F->ciB);
+    if (rc == 0) {
+	(void)vnacal_new_add_single_reflect_m(p, F->mp, 1, 1, VNACAL_SHORT, 1);
+	(void)vnacal_new_add_single_reflect_m(p, F->mp, 1, 1, VNACAL_OPEN, 1);
+	(void)vnacal_new_add_single_reflect_m(p, F->mp, 1, 1, VNACAL_MATCH, 1);
+	(void)vnacal_new_solve(p);
+    }
+    vnacal_new_free(p);
+    return rc;
+}
+OP(alias_vparam_fvec)
+{
+    /* a vector parameter on the grid of a stored calibration, and a second
+       one on the grid handed to the first (its own copy must be used) */
+    const double *fv = vnacal_get_frequency_vector(F->vcp, F->ciA);
+    int n = vnacal_get_frequencies(F->vcp, F->ciA);
+    if (fv == NULL || n <= 0 || n > 5)
+	return -1;
+    int p = vnacal_make_vector_parameter(F->vcp, fv, n, F->g5);
+    if (p < 0)
+	return -1;
+    (void)vnacal_delete_calibration(F->vcp, F->ciA);
+    for (int k = 0; k < n; ++k)
+	(void)vnacal_get_parameter_value(F->vcp, p, F->f3[k % 3]);
+    return vnacal_delete_parameter(F->vcp, p);
+}
 OP(alias_copy_up)
 {
     /* promote a branch to the root: the source lies inside the destination */
@@ -302,7 +352,8 @@ static const struct { const char *name; op_fn *fn; } ops[] = {
     O(vd_save_load), O(vdf_save_load), O(vd_load_bad), O(vd_load_s2p),
     O(alias_addcal_name), O(alias_cal_resave),
     O(alias_vd_vectors), O(alias_vdf_vectors), O(alias_prop_self),
-    O(alias_copy_up), O(alias_copy_down),
+    O(alias_copy_up), O(alias_copy_down), O(alias_apply_fvec),
+    O(alias_new_fvec), O(alias_vparam_fvec),
     O(vp_set_deep), O(vp_del_item), O(vp_del_key), O(vp_scalar_root),
     O(vp_insert), O(vp_copy), O(vp_import), O(vp_bad_lookup),
 };
